@@ -82,6 +82,19 @@ def main():
     probe = req.get("probe", [])
     zi = zoneinfo.ZoneInfo(req["zone"])
     zone_ok = all(time.localtime(i // 10 ** 6).tm_gmtoff == (EPOCH + i * US).astimezone(zi).utcoffset().total_seconds() for i in probe)
+    # Values the platform cannot convert (the extremes, used as "never" / "always" markers) come first in this process: having seen them
+    # must not change how any later datetime is read.
+    warm = None
+    try:
+        for marker in (dt.datetime.min, dt.datetime.max, dt.datetime.min.replace(fold=1)):
+            _to_naive_utc_time(marker)
+        plan0, reg0 = uberjob.Plan(), uberjob.Registry()
+        s0 = reg0.source(plan0, uberjob.stores.LiteralSource(0, dt.datetime.min))
+        a0 = plan0.call(ident, s0)
+        reg0.add(a0, St("a0", dt.datetime(2020, 1, 1), []))
+        uberjob.run(plan0, registry=reg0, output=a0, fresh_time=dt.datetime.max, progress=None, max_workers=1)
+    except BaseException as e:
+        warm = "%s: %s" % (type(e).__name__, e)
     for ci, c in enumerate(req["cases"]):
         try:
             if c["kind"] == "conv":
@@ -99,6 +112,7 @@ def main():
                 out.append(res)
             else:
                 log = []
+                dep_source = False
                 ds = {k: build(c[k]) for k in ("fresh", "s", "s2", "a", "b")}
                 plan, reg = uberjob.Plan(), uberjob.Registry()
                 if ci % 2:     # the bundled sources carry the datetime they were given
@@ -108,19 +122,29 @@ def main():
                     shared = St("s", ds["s"], log)      # ONE store object registered as the source of two nodes
                     s = reg.source(plan, shared)
                     s2 = reg.source(plan, shared)
+                elif ci % 4 == 2:
+                    # s2 is a DEPENDENT source: an unregistered call must run before it when (and only when) s2 is out of date
+                    s = reg.source(plan, St("s", ds["s"], log))
+                    s2 = None
+                    dep_source = True
                 else:
                     s = reg.source(plan, St("s", ds["s"], log))
                     s2 = reg.source(plan, St("s2", ds["s2"], log))
                 a = plan.call(ident, s)
                 reg.add(a, St("a", ds["a"], log))
+                if dep_source:
+                    # s -> a (stored) -> pre (not stored) -> s2: s2 has an upstream modified time
+                    pre = plan.call(lambda v: log.append("pre") or 0, a)
+                    s2 = reg.source(plan, St("s2", ds["s2"], log))
+                    plan.add_dependency(pre, s2)
                 u = plan.call(ident, a, s2)
                 b = plan.call(ident, u)
                 reg.add(b, St("b", ds["b"], log))
                 uberjob.run(plan, registry=reg, output=b, fresh_time=ds["fresh"], progress=None, max_workers=1)
-                out.append({"written": sorted(log), "reps": {k: describe(v) for k, v in ds.items()}})
+                out.append({"written": sorted(x for x in log if x != "pre"), "pre_ran": "pre" in log, "dep_source": dep_source, "reps": {k: describe(v) for k, v in ds.items()}})
         except BaseException as e:
             out.append({"error": "%s: %s" % (type(e).__name__, e)})
-    sys.stdout.write(json.dumps({"uberjob": os.path.dirname(uberjob.__file__), "zone_ok": zone_ok,
+    sys.stdout.write(json.dumps({"uberjob": os.path.dirname(uberjob.__file__), "zone_ok": zone_ok, "warm_up_error": warm,
                                  "tzname": list(time.tzname), "results": out}))
 
 
